@@ -60,8 +60,10 @@ Proof.
   pose proof (chunks_of_length_bounds ChunkSize ltac:(lia) data) as [_ Hub].
   etransitivity; [exact Hub|]. apply Nat2Z.inj_le. rewrite Nat2Z.inj_pow, Hbr.
   rewrite Nat2Z.inj_add, Nat2Z.inj_div, Hcs. change (Z.of_nat 7) with 7%Z. change (Z.of_nat 1) with 1%Z.
-  assert (Z.of_nat (length data) / 262144 <= Z.of_nat (length data))%Z by (apply Z.div_le_upper_bound; lia).
-  assert (2 ^ 63 < 8192 ^ 7)%Z by (vm_compute; reflexivity). lia.
+  clear Hub Hc Hcs Hbr.
+  assert (Hd1 : (Z.of_nat (length data) / 262144 <= Z.of_nat (length data))%Z) by (apply Z.div_le_upper_bound; lia).
+  assert (Hd2 : (2 ^ 63 < 8192 ^ 7)%Z) by (vm_compute; reflexivity).
+  remember (Z.of_nat (length data) / 262144)%Z as q eqn:Eq. clear Eq. lia.
 Qed.
 
 Lemma at_source_constants : consts_ok_C02_b = true -> forall (H : bytes -> bytes),
@@ -73,6 +75,5 @@ Lemma at_source_constants : consts_ok_C02_b = true -> forall (H : bytes -> bytes
             /\ u_rets u = map (fun s => Z.of_nat (length s)) segs.
 Proof.
   intros Hc H Hlen segs Hsz. destruct (ChunkSize_val Hc) as [Hcs Hbr].
-  apply equals_spec; try assumption; try lia.
-  exact (source_capacity Hc (concat segs) Hsz).
+  apply equals_spec; [lia | lia | exact Hlen | lia | exact (source_capacity Hc (concat segs) Hsz)].
 Qed.
